@@ -1366,6 +1366,8 @@ def check_df(c, ev, k, marker, vbytes, inptr, inlen, outptr, indata, tag, ST):
     """Hash_df as one hash session: init(h); update(h, ...)*; finalize(h, out) [; free(h), here or later].  What counts is the byte stream
     the session absorbs - header {1,0,0,1,0[,marker]}, then V (32 bytes), then the additional input - however it is cut into update
     calls (a header built in one piece or two, an empty update left out).  Returns (next index, digest event)"""
+    while k < len(ev) and ev[k][2] == "tinyjambu_clean" and str(ev[k][3][0]).startswith("alloca"):
+        k += 1          # the wipe of a local temporary of the previous session (a staging buffer): not part of a hash session; a wipe before a use shows in the data
     if len(ev) <= k or ev[k][2] != "tinyjambu_hash_init":
         c("SEQ", False, "%s-df" % tag, "", "Hash_df does not start with hash_init: %s" % [e[2] for e in ev[k:k + 3]])
         return None
@@ -1463,7 +1465,8 @@ def check_prng(ck_ob, mod, label, generate=True):
             k, fin = r
             r2 = check_df(c, ev, k, 0x00, bytes_sym("DIGEST", fin[1], 32), "0", "0", CP, None, tag + "-C", ST)
             if r2:
-                c("SEQ", len(ev) == r2[0], tag + "-nothing-more", "nothing else is hashed", "extra calls: %s" % [e[2] for e in ev[r2[0]:]])
+                more = [e for e in ev[r2[0]:] if not (e[2] == "tinyjambu_clean" and str(e[3][0]).startswith("alloca"))]      # (wipes of local temporaries hash nothing)
+                c("SEQ", not more, tag + "-nothing-more", "nothing else is hashed", "extra calls: %s" % [e[2] for e in more])
         c("SEQ", p.lfmem.get((ST, CNT, 4)) == Lf.c(1), tag + "-counter", "reseed_counter = 1", "reseed_counter after instantiate is %s" % p.lfmem.get((ST, CNT, 4)))
         n += 8
     # ---- reseed
